@@ -504,9 +504,9 @@ class APIClient:
         self, unsub_callback: Callable[[], None]
     ) -> None:
         """Unsubscribe Bluetooth advertisements if connected."""
-        if self._connection is not None:
+        if (connection := self._connection) is not None and connection.is_connected:
             unsub_callback()
-            self._connection.send_message(UnsubscribeBluetoothLEAdvertisementsRequest())
+            connection.send_message(UnsubscribeBluetoothLEAdvertisementsRequest())
 
     def subscribe_bluetooth_le_advertisements(
         self, on_bluetooth_le_advertisement: Callable[[BluetoothLEAdvertisement], None]
@@ -918,12 +918,12 @@ class APIClient:
             raise
 
         async def stop_notify() -> None:
-            if self._connection is None:
+            if (connection := self._connection) is None or not connection.is_connected:
                 return
 
             remove_callback()
 
-            self._connection.send_message(
+            connection.send_message(
                 BluetoothGATTNotifyRequest(address=address, handle=handle, enable=False)
             )
 
@@ -1408,10 +1408,10 @@ class APIClient:
         def unsub() -> None:
             nonlocal start_task
 
-            if self._connection is not None:
+            if (connection := self._connection) is not None and connection.is_connected:
                 for remove_callback in remove_callbacks:
                     remove_callback()
-                self._connection.send_message(
+                connection.send_message(
                     SubscribeVoiceAssistantRequest(subscribe=False)
                 )
 
